@@ -84,28 +84,29 @@ inductive End where
   | normal (s : St)
   | fault (what : String)
 
+/-- how a slot opcode's outcome continues the run: the parameter pointer moves on; `DIE` sets the status and `EXIT(1)` pushes 1 -/
+def withCtx (vm : Vm) (o : Outcome) (dpAdd : Nat) : Sum St End :=
+  match o with
+  | .cont c => .inl { vm := { vm with dp := vm.dp + dpAdd }, ctx := c }
+  | .died c =>
+    (match push 1 { vm with status := .died_early } with
+     | .ok _ vm' => .inr (.normal { vm := vm', ctx := c })
+     | .stop _ _ => .inr (.fault "stack"))
+  | .fault w => .inr (.fault w)
+
 /-- one instruction -/
 def stepInstr (s : St) (i : Instr) : Sum St End :=
   let (opc, ps) := i
   let arg (k : Nat) : Int := s8 (ps.getD k 0)
-  let withCtx (o : Outcome) (dpAdd : Nat) : Sum St End :=
-    match o with
-    | .cont c => .inl { vm := { s.vm with dp := s.vm.dp + dpAdd }, ctx := c }
-    | .died c =>
-      -- DIE: status, then EXIT(1) pushes 1
-      (match push 1 { s.vm with status := .died_early } with
-       | .ok _ vm => .inr (.normal { vm := vm, ctx := c })
-       | .stop _ _ => .inr (.fault "stack"))
-    | .fault w => .inr (.fault w)
   match opc with
-  | 25 | 27 => withCtx (opNext s.ctx) 0
-  | 31 => withCtx (opInsert s.ctx) 0
-  | 32 => withCtx (opDelete s.ctx) 0
-  | 30 => withCtx (opPutCopy s.ctx (arg 0)) 1
-  | 33 => withCtx (opAssoc s.ctx ((ps.drop 1).map s8)) ps.length
-  | 67 => withCtx (opTempCopy s.ctx) 0
-  | 59 => withCtx (opPutGlyph s.ctx ((ps.getD 0 0) * 256 + ps.getD 1 0)) 2
-  | 56 => withCtx (opPutSubs s.ctx (arg 0) ((ps.getD 1 0) * 256 + ps.getD 2 0) ((ps.getD 3 0) * 256 + ps.getD 4 0)) 5
+  | 25 | 27 => withCtx s.vm (opNext s.ctx) 0
+  | 31 => withCtx s.vm (opInsert s.ctx) 0
+  | 32 => withCtx s.vm (opDelete s.ctx) 0
+  | 30 => withCtx s.vm (opPutCopy s.ctx (arg 0)) 1
+  | 33 => withCtx s.vm (opAssoc s.ctx ((ps.drop 1).map s8)) ps.length
+  | 67 => withCtx s.vm (opTempCopy s.ctx) 0
+  | 59 => withCtx s.vm (opPutGlyph s.ctx ((ps.getD 0 0) * 256 + ps.getD 1 0)) 2
+  | 56 => withCtx s.vm (opPutSubs s.ctx (arg 0) ((ps.getD 1 0) * 256 + ps.getD 2 0) ((ps.getD 3 0) * 256 + ps.getD 4 0)) 5
   | 41 =>                                                   -- PUSH_GLYPH_ATTR_OBS <attr> <slot_ref>: nothing is pushed through a null slot
     let rc := slotat s.ctx (arg 1)
     (match rc.1 with
@@ -134,12 +135,13 @@ def stepInstr (s : St) (i : Instr) : Sum St End :=
      | .stop _ _ => .inr (.fault "stack"))
   | _ =>
     match scalarOp opc with
-    | none => .inr (.fault s!"opcode {opc} is not modelled")
+    | none => .inr (.fault "opcode not modelled")
     | some op =>
       match op s.vm with
       | .ok () vm => .inl { s with vm := vm }
       | .stop .exited vm => .inr (.normal { s with vm := vm })
-      | .stop _ _ => .inr (.fault "stack/data")
+      | .stop (.stackFault _) _ => .inr (.fault "stack")
+      | .stop (.dataFault _) _ => .inr (.fault "data")
 
 def runLoop : List Instr → St → End
   | [], s => .normal s
